@@ -237,7 +237,11 @@ class AquaCropModel:
         self._outputs = Output(self._clock_struct.time_span, self._init_cond.th)
 
         # save model _weather to _init_cond
-        self._weather = self.weather_df.values
+        # (the time step reads the columns by position, so select them by name here:
+        # the weather table may list its columns in any order and carry extra columns)
+        self._weather = self.weather_df[
+            ["MinTemp", "MaxTemp", "Precipitation", "ReferenceET", "Date"]
+        ].values
 
     def run_model(
         self,
